@@ -490,7 +490,7 @@ MSG = 'pgpy.pgp.PGPMessage'
 
 
 def key_encrypt(supplied):
-    label = 'C03/PGPKey.encrypt[session key %s]' % ('supplied' if supplied else 'generated')
+    label = 'C03/PGPKey.encrypt[session key %s]' % ('supplied in a bytearray' if supplied == 'bytearray' else 'supplied' if supplied else 'generated')
 
     def gen(repo):
         r = scn.Run(repo, KEY, 'encrypt', label)
@@ -526,13 +526,13 @@ def key_encrypt(supplied):
             return [(st, E.VNone())]
 
         def esk(ex, st, o, a):
-            st.ghost['encrypt_sk_args'] = a
+            st.ghost['encrypt_sk_args'] = tuple(E.VBytes(ex.seq(x, st)) if isinstance(x, E.VBuf) else x for x in a)     # octets as they are at the call
             st.ghost['encrypter_at_encrypt_sk'] = (st.heap.get(('pkesk', '_encrypter')), st.heap.get(('pkesk', '_pkalg')))
             return [(st, E.VNone())]
         r.hook(PK, 'encrypt_sk', scn.method_hook(esk))
 
         def senc(ex, st, o, a):
-            st.ghost['seipd_args'] = a
+            st.ghost['seipd_args'] = tuple(E.VBytes(ex.seq(x, st)) if isinstance(x, E.VBuf) else x for x in a)
             return [(st, E.VNone())]
         r.hook(SE, 'encrypt', scn.method_hook(senc))
 
@@ -541,8 +541,12 @@ def key_encrypt(supplied):
             return [(st, o)]
         r.hook(MSG, '__or__', scn.method_hook(m_or))
         SK = z3.Const('SUPPLIED_SESSION_KEY', B)
-        args = [msg] + ([E.VBytes(SK)] if supplied else [])
+        skbuf = ex.new_buf(st, SK) if supplied == 'bytearray' else None
+        args = [msg] + ([skbuf if skbuf is not None else E.VBytes(SK)] if supplied else [])
         for pi, (s, v) in enumerate(r.call(me, args)):
+            if skbuf is not None:
+                # the documented way to address several recipients is to pass the SAME session key to one encrypt() after the other
+                r.oblige(s, 'the-caller\'s-session-key-buffer-is-left-as-it-was(it-is-used-for-the-next-recipient)/p%d' % pi, s.heap[skbuf.cell] == SK)
             if isinstance(v, E.Raise):
                 r.oblige(s, 'safety(%s)/p%d' % (v.exc.split(':')[0], pi), z3.BoolVal(False), v.where)
                 continue
@@ -738,7 +742,7 @@ _base_scenarios = scenarios
 
 
 def scenarios():
-    return _base_scenarios() + [key_encrypt(False), key_encrypt(True), key_decrypt(), message_decrypt()]
+    return _base_scenarios() + [key_encrypt(False), key_encrypt(True), key_encrypt('bytearray'), key_decrypt(), message_decrypt()]
 
 
 # ---------------------------------------------------------------------------------------------------
@@ -969,7 +973,7 @@ def scenarios():
 def message_encrypt(supplied, already):
     """PGPMessage.encrypt (passphrase): iterated+salted S2K with the requested hash and cipher, session key drawn iff none is supplied,
     the whole message in one integrity-protected container (or, for an already encrypted message, one more session-key packet)"""
-    label = 'C03/PGPMessage.encrypt[session key %s%s]' % ('supplied' if supplied else 'generated', ', message already encrypted' if already else '')
+    label = 'C03/PGPMessage.encrypt[session key %s%s]' % ('supplied in a bytearray' if supplied == 'bytearray' else 'supplied' if supplied else 'generated', ', message already encrypted' if already else '')
     SK4, S2K = 'pgpy.packet.packets.SKESessionKeyV4', 'pgpy.packet.fields.String2Key'
 
     def gen(repo):
@@ -989,13 +993,13 @@ def message_encrypt(supplied, already):
         r.hook('pgpy.constants.HashAlgorithm', 'tuned_count', scn.const(E.VInt(TUNED)))
 
         def esk(ex, st, o, a):
-            st.ghost['encrypt_sk_args'] = a
+            st.ghost['encrypt_sk_args'] = tuple(E.VBytes(ex.seq(x, st)) if isinstance(x, E.VBuf) else x for x in a)     # octets as they are at the call
             st.ghost['s2k_at_encrypt_sk'] = {f: st.heap.get(('s2k', f)) for f in ('usage', '_specifier', '_halg', '_encalg', '_count', 'count')}
             return [(st, E.VNone())]
         r.hook(SK4, 'encrypt_sk', scn.method_hook(esk))
 
         def senc(ex, st, o, a):
-            st.ghost['seipd_args'] = a
+            st.ghost['seipd_args'] = tuple(E.VBytes(ex.seq(x, st)) if isinstance(x, E.VBuf) else x for x in a)
             return [(st, E.VNone())]
         r.hook(SEIPD, 'encrypt', scn.method_hook(senc))
 
@@ -1009,7 +1013,10 @@ def message_encrypt(supplied, already):
             return [(st, E.VNone())]
         PW, SK = E.VStr(z=z3.Const('PASSPHRASE', B)), z3.Const('SUPPLIED_SESSION_KEY', B)
         kws = {'cipher': E.VInt(9, enum='pgpy.constants.SymmetricKeyAlgorithm'), 'hash': E.VInt(10, enum='pgpy.constants.HashAlgorithm')}
-        for pi, (s, v) in enumerate(r.call(me, [PW] + ([E.VBytes(SK)] if supplied else []), kws)):
+        skbuf = ex.new_buf(st, SK) if supplied == 'bytearray' else None
+        for pi, (s, v) in enumerate(r.call(me, [PW] + ([skbuf if skbuf is not None else E.VBytes(SK)] if supplied else []), kws)):
+            if skbuf is not None:
+                r.oblige(s, 'the-caller\'s-session-key-buffer-is-left-as-it-was(it-is-used-for-the-next-recipient)/p%d' % pi, s.heap[skbuf.cell] == SK)
             if isinstance(v, E.Raise):
                 r.oblige(s, 'safety(%s)/p%d' % (v.exc.split(':')[0], pi), z3.BoolVal(False), v.where)
                 continue
@@ -1053,7 +1060,8 @@ _base_scn5 = scenarios
 
 
 def scenarios():
-    return _base_scn5() + [message_encrypt(False, False), message_encrypt(True, False), message_encrypt(False, True)]
+    return _base_scn5() + [message_encrypt(False, False), message_encrypt(True, False), message_encrypt(False, True), message_encrypt('bytearray', False),
+                           message_encrypt('bytearray', True)]
 
 
 def pkesk_decrypt_rsa():
